@@ -98,6 +98,8 @@ class Masks(Relation):
             modes += [('subpixels', n) for n in spec['subpixels']]
         center_data = None
         nt_any = False
+        from vf.fingerprint import fp
+        fp_reg = fp(reg)
         for mode, n in modes:
             if mode == 'center':
                 mask = reg.to_mask('center')
@@ -107,6 +109,11 @@ class Masks(Relation):
                 nn = n
             tag = f'{cls} mode={mode}'
             data = np.asarray(mask.data)
+            ctx.check(fp(reg) == fp_reg, f'{tag} | to_mask modifies the region')
+            again = reg.to_mask(mode) if mode == 'center' else reg.to_mask(
+                mode, n)
+            ctx.check(np.array_equal(np.asarray(again.data), data),
+                      f'{tag} | a second to_mask call gives a different mask')
             ctx.check(data.shape == (ny, nx),
                       f'{tag} | mask shape differs from bounding-box shape',
                       f'{data.shape} vs {(ny, nx)}')
